@@ -15,7 +15,7 @@ META = dict(
                 "0/1 DAGs of int and float dtype, and on every binary PDAG with acyclic directed part; the returned stacks are "
                 "compared as sets (and for duplicates) with the brute-force class computed from the definition (all acyclic "
                 "orientations of the skeleton with the same v-structures / keeping the directed edges).",
-    bounds=dict(quick="mec: weighted + binary DAGs p <= 4 (543 patterns); all_dags / is_consistent_extension: binary PDAGs p <= 3 all, p = 4 with <= 4 edges; chain graphs (both directions of the shortcut) p <= 7",
+    bounds=dict(quick="mec: weighted + binary DAGs p <= 4 (543 patterns); all_dags / is_consistent_extension: binary PDAGs p <= 3 all, p = 4 with <= 4 edges; chain graphs (both directions of the shortcut) p <= 7; wide: all 4-node DAG patterns / 3-node PDAGs embedded at nodes 11,1,9,0 of a 12-node graph",
                 thorough="mec: p = 5 all 29,281 DAG patterns (weighted); all_dags / is_consistent_extension: all PDAGs p = 4; chain graphs p <= 9"),
     outside=["p > 5 for general graphs, chain graphs beyond p = 9 (the statement's p = 12 chain is outside the bound)", "max_combinations argument of all_dags"],
     stubs=["numpy -> symnp"],
@@ -148,6 +148,11 @@ def obligations(tier):
                              expect=('has extension',), weight=p))
     ob.append(Obligation('mec_dag_p4', h_mec_weighted, I.dag_pair_cubes(4, 3),
                          "mec on every DAG pattern on 4 nodes", expect=('checked',), weight=30))
+    ob.append(Obligation('mec_wide_p12', h_mec_weighted, I.embed_cubes(12, [11, 1, 9, 0], 3, dag=True),
+                         "mec on every 4-node DAG pattern embedded at nodes 11, 1, 9, 0 of a 12-node graph", expect=('checked',), weight=60))
+    ob.append(Obligation('pdag_wide_p12', h_pdag, I.embed_cubes(12, [11, 1, 9], 1),
+                         "all_dags / is_consistent_extension on every 3-node binary PDAG embedded at nodes 11, 1, 9 of a 12-node graph",
+                         expect=('has extension',), weight=20))
     chains = range(2, 8) if tier == 'quick' else range(2, 10)
     for p in chains:
         ob.append(Obligation('chain_p%d' % p, h_chain, [dict(p=p)], "mec of the chain graph on %d nodes with symbolic weights" % p,
